@@ -957,6 +957,17 @@ func (cs *ConsensusState) addProposalBlockPart(msg *BlockPartMessage, peerID p2p
 		if err != nil {
 			return added, err
 		}
+		// The block id voted on carries the part-set header of the bytes received, while every
+		// other node that has to re-derive it (block sync, a proposer re-proposing the block)
+		// re-encodes the block: only the canonical encoding of a block may be accepted, or the
+		// decoder's leniency (unknown fields, non-minimal varints) gives one block several ids.
+		pbb2, err := block.ToProto()
+		if err != nil {
+			return added, err
+		}
+		if bz2, err := proto.Marshal(pbb2); err != nil || !bytes.Equal(bz, bz2) {
+			return added, fmt.Errorf("proposal block is not canonically encoded")
+		}
 
 		cs.ProposalBlock = block
 		// NOTE: it's possible to receive complete proposal blocks for future rounds without having the proposal
